@@ -76,6 +76,27 @@ CLAIMED["C12"] = dict(
     text="Theorems (closed): load_history_independent / load_state_independent (for every history of earlier loads and whatever a failed load leaves behind, the outcome equals the pristine one), load_step_denote (namely the script's denotation), history_independence_refuted (without the clearing at the start of parse the property is false; witness), clear_sites_ok (the clearing sites in listener.py are those the model assumes; regenerated each run). Histories of loads (valid, templates, failing at every stage, options mentioning names, includes) run in one process; every step must equal its outcome in a pristine forked process and results must share no mutable object.",
     note="Trusted: Coq kernel; T3; harness; a forked child of a fresh interpreter counts as pristine. Threads are not modelled.", ref="5 C12")
 
+SER_NOTE = ("Trusted: Coq kernel; extraction + driver; harness. The Coq serialiser prints exact decimals/expressions while the implementation prints CPython/numpy repr: "
+            "float printing is an oracle (shortest repr round-trips), checked per case; the two serialisers are tied structurally (same skeleton: metadata, hoisted "
+            "declarations A<k> with shapes, statements, argument classes, keyword names, modes) and semantically (the model loader reads the implementation's text as the "
+            "original program). sympy's printer is trusted to re-parse to an equal expression (checked at sample points). lex(render(tokens)) = tokens is not proved.")
+CLAIMED["C01"] = dict(
+    technique="Coq proof (serialiser model mirroring program.py: AST-level round trip for every well-formed program and every generation; printing to tokens and parsing back is the identity up to positions) + differential round trips and structural tie to the implementation's text",
+    text="Theorems (closed): ser_roundtrip / ser_denote (the script the serialiser writes - metadata, tdm variable block, hoisted array declarations, statements - denotes a program equivalent to the one serialised: names, modes, integers, booleans, strings, structure equal; real/complex/symbolic values equal in every arithmetic structure satisfying four elementary laws), ser_script_total, ser_generations_total (every later generation), term_expr_eval, parse_z_digits / parse_dec_text; UnparseP.unparse_parse_exact (tokens). For generated scripts: three generations of loads/dumps on the implementation must reproduce the program exactly, generation 2 and 3 texts must be identical, the model must read the first dump as the original program, and the dump must have the skeleton the Coq serialiser prescribes.",
+    note=SER_NOTE, ref="5 C01, 10")
+CLAIMED["C09"] = dict(
+    technique="Coq proof (as C01: the round trip is proved for every well-formed program VALUE, independent of how it was assembled) + differential on API-built programs with extreme values",
+    text="Theorems (closed): ser_roundtrip, ser_script_total, reload_equiv, ser_denote, unparse_parse_exact. Programs are assembled through the Python API from every supported kind (Python and numpy ints/floats/complex/bools, strings, lists, 2-D arrays with extreme elements, real sympy expressions) in positional/keyword/option position; the dump must be accepted and denote the same program both by the implementation's loader (exact comparison) and by the model's loader, and must be a fixed point of the model serialiser's structure.",
+    note=SER_NOTE, ref="5 C09, 10")
+CLAIMED["C13"] = dict(
+    technique="Coq proof (heap/aliasing model: confined write footprints imply the frame property for every heap and every call sequence; deep-copied instances are separated) + translator obligation on the write footprints of the API + dynamic snapshot/identity checks [partial]",
+    text="Theorems (closed): footprints_confined (every store write of serialize, __call__, to_DiGraph, match_template and the getters targets an object constructed or deep-copied inside the function; regenerated from the sources each run), frame_call, readonly_frame, program_unchanged (any sequence of such calls, interleaved with client writes to later-allocated objects, leaves everything reachable from the program unchanged), instances_separated / all_instances_separated, modify_inst*_alters_nothing_else. Dynamically: dump text, canonical content and operation keys of a template are compared before/after every call of random API call sequences; id-sets of mutable containers of instances must be disjoint; every container of every instance is then mutated and the template and siblings re-checked. PARTIAL: the footprint extraction is syntactic and copy.deepcopy is an oracle contract (DeepCopy).",
+    note="Trusted: Coq kernel; T3 footprint analysis (syntactic, conservative); the DeepCopy contract for copy.deepcopy; harness.", ref="5 C13, 10")
+CLAIMED["C17"] = dict(
+    technique="Coq proof (reordering = graph isomorphism; the isomorphism is unique; affine solving recovers the values; structural edits admit no isomorphism) + differential on reordered instantiations and structural edits",
+    text="Theorems (closed): match_template_reordered (for affine single-parameter templates and any per-mode-order-preserving reordering of an instantiation, whatever label-preserving homomorphism is used the bindings are the instantiation values, consistent, and reproduce the arguments), iso_unique (so VF2 may return any isomorphism), reorder_consec, match_inverts_inst / solve_inverts (over Q), label_change_rejected, order_change_rejected. Generated templates are instantiated with generic reals, reordered, matched (values to 1e-9, arguments reproduced) and single edits (gate, modes, per-mode order, version, target) must raise TemplateError.",
+    note="Trusted: Coq kernel; harness; networkx VF2 finds an isomorphism when one exists; sympy.solve; version/target equality tests and the floating tolerance are not modelled.", ref="5 C17")
+
 NOT_YET = {
 }
 
